@@ -420,24 +420,28 @@ func Scenario(seed int64, k int, res *l2.Result) {
 
 	settle := func() {
 		// Steering only: give the client the time to finish disconnecting
-		// the peers it banned, so that the next call is not handed to a
-		// worker whose peer is going away.
+		// the peers it banned or dropped, so that the next call is not
+		// handed to a query worker whose peer is going away (the work
+		// manager counts that as one of the call's tries).
+		fresh := false
 		d.mu.Lock()
 		for _, a := range d.answers {
 			if a.Class == "bad" || a.Class == "mixed" || a.Class == "ambig" || a.Class == "garbage" {
-				suspects[w.Peers[a.Peer].Addr] = true
+				if addr := w.Peers[a.Peer].Addr; !suspects[addr] {
+					suspects[addr] = true
+					fresh = true
+				}
 			}
 		}
 		d.mu.Unlock()
-		waited := false
 		for addr := range suspects {
 			if w.Svc.IsBanned(addr) && w.Svc.PeerByAddr(addr) != nil {
 				l2.WaitFor(5*time.Second, func() bool { return w.Svc.PeerByAddr(addr) == nil })
-				waited = true
+				fresh = true
 			}
 		}
-		if waited {
-			time.Sleep(30 * time.Millisecond)
+		if fresh {
+			time.Sleep(60 * time.Millisecond)
 		}
 	}
 
@@ -869,7 +873,19 @@ func Scenario(seed int64, k int, res *l2.Result) {
 			if want == 0 {
 				want = neutrino.QueryNumRetries
 			}
-			if c.GroupN == 1 && !c.Plan.Unknown && len(mine) < want {
+			// A try can be spent on a worker whose peer the client has just
+			// disconnected (no request reaches any peer): allow one such
+			// phantom try per peer the client had reason to drop.
+			phantom := map[int]bool{}
+			for _, a := range answers {
+				if a.RxSeq < c.End && (a.Class == "bad" || a.Class == "mixed" || a.Class == "ambig" || a.Class == "garbage") {
+					phantom[a.Peer] = true
+				}
+			}
+			if c.GroupN == 1 && !c.Plan.Unknown && len(mine) < want && len(mine)+len(phantom) >= want {
+				res.Count("failed_calls_with_possible_phantom_try", 1)
+			}
+			if c.GroupN == 1 && !c.Plan.Unknown && len(mine)+len(phantom) < want {
 				if c.DurMs < 25000 {
 					res.Violate(evid.Sig("c06/gave-up-before-retries-exhausted", strings.Join(steps, ","), errClass(c.Err)),
 						fmt.Sprintf("GetBlock(%s) failed with %q after asking %d time(s) although %d tries were allowed", c.HashStr, c.Err, len(mine), want), wit())
